@@ -808,6 +808,13 @@ func ruleDistinctPickedElements(c *Ctx, rule string, shorts ...string) {
 				dup := int64(-1)
 				for _, el := range cl.Elts {
 					e := el
+					// an element may also be the call of a picked closure: argv := []xr.Value{argfuns[0](env), argfuns[1](env)}
+					if call, ok := unparen(e).(*ast.CallExpr); ok {
+						if _, isIx := unparen(call.Fun).(*ast.IndexExpr); isIx {
+							e = call.Fun
+							el = call.Fun
+						}
+					}
 					for {
 						if se, ok := unparen(e).(*ast.SelectorExpr); ok {
 							e = se.X
